@@ -84,7 +84,7 @@ def is_neg_zero(r):
 
 def real_is(r, neg_zero, q):
     """r is the exact real q, or the signed zero -0 when `neg_zero` (then q == 0)"""
-    return is_neg_zero(r) if cls_name(r) == 'Float' else (not neg_zero and r == q)
+    return (neg_zero and is_neg_zero(r)) if cls_name(r) == 'Float' else (not neg_zero and r == q)
 
 
 # ---------------------------------------------------------------------------
